@@ -10,6 +10,16 @@ CHECKS = {
    note="Trusted: TLC, hook H1 driving the tokenizer as the parser does, the JSON encodings, the harness comparison. Number tokens are compared by span and validity only.",
    technique="TLA+ Lexer state machine: TLC exhaustive small-scope model checking + spec-to-code replay + code-to-spec trace validation",
    design="5/C10"),
+ "C02": dict(
+   text="TLC explores a PlusCal transcription of src/parser.rs (one label per call site, including the repaired parse_op) and checks in every final state that its result conforms to an independent stratified reference grammar (one non-terminal per precedence level, no binding powers): exhaustively for every token string up to 4 (thorough 5) tokens over a 14-token operator alphabet, and for sentence families covering all 32x32 ordered pairs of built-in infix operators in 6 shapes, all triples over one representative per level/associativity, and 14 decorations (prefix, postfix, not, conditionals, calls, lists, maps, chains). Every behaviour TLC enumerated is concretised and parsed by the real parser (AST compared structurally), and random programs parsed by the real parser are judged by TLC with the reference grammar on the token sequence the real tokenizer reported.",
+   note="Trusted: TLC, hook H1 (token sequence), the JSON/AST encodings, the concretisation table. Exhaustive only within the stated scopes; sampled with an exact oracle beyond.",
+   technique="PlusCal Pratt machine vs stratified reference grammar in TLA+: TLC exhaustive small-scope + sentence families, replayed in the real parser; trace validation of random programs",
+   design="5/C02"),
+ "C05": dict(
+   text="Same machine and reference grammar as C02, with a four-valued verdict (MustAccept / MayAccept for the lenient readings the property allows / Unspecified / MustReject): TLC explores every token string up to 5 tokens over a 13-token delimiter/separator alphabet and up to 6 (thorough 7) tokens over four focused alphabets (calls, lists, maps, conditionals); an accepted string must be a sentence with exactly the reference tree and a MustReject string must be rejected; every behaviour is replayed in the real parser. Random programs with token-level and character-level corruptions are parsed by the real code and judged by TLC (lexical failure or MustReject => Err).",
+   note="Trusted: TLC, hook H1, encodings. MayAccept classes (omitted/trailing `;`, trailing comma in list/map, unregistered operator in prefix position, > 200 tokens) can be accepted or rejected but never with another tree.",
+   technique="PlusCal Pratt machine vs reference grammar verdicts: TLC exhaustive over token strings, replay in the real parser, trace validation of corrupted programs",
+   design="5/C05"),
 }
 NOT_YET = "check not built yet (build in progress; see DESIGN.md section 11)"
 
